@@ -67,6 +67,8 @@ pub struct OpSpec {
     /// chance (of 256) that the case runs with an application that drains after every delivery
     pub prompt_drain: u32,
     pub polite: bool,
+    /// weight of the property-specific extra operation (0 = none)
+    pub extra: u32,
 }
 
 #[derive(Clone, Debug, Hash)]
@@ -222,7 +224,13 @@ pub fn do_send(w: &mut World, ctx: &mut Ctx, spec: &OpSpec) -> Result<Op, Fail> 
     Ok(Op::Send { client: d.client, to_client: d.to_client, ch, len, n, accepted })
 }
 
-pub fn run_ops(w: &mut World, ctx: &mut Ctx, spec: &OpSpec, hook: StepHook) -> Outcome {
+pub type ExtraOp<'h> = &'h mut dyn FnMut(&mut World, &mut Ctx) -> Outcome;
+
+pub fn no_extra(_: &mut World, _: &mut Ctx) -> Outcome {
+    Ok(())
+}
+
+pub fn run_ops(w: &mut World, ctx: &mut Ctx, spec: &OpSpec, hook: StepHook, extra: ExtraOp) -> Outcome {
     w.prompt_drain = ctx.src.chance(spec.prompt_drain);
     if w.prompt_drain {
         ctx.label("prompt_drain");
@@ -230,7 +238,15 @@ pub fn run_ops(w: &mut World, ctx: &mut Ctx, spec: &OpSpec, hook: StepHook) -> O
     let mut ops = 0;
     while !ctx.src.exhausted() && ops < spec.max_ops {
         ops += 1;
-        let kind = ctx.src.weighted(&spec.ops);
+        let mut weights = spec.ops.to_vec();
+        weights.push(spec.extra);
+        let kind = ctx.src.weighted(&weights);
+        if kind == 7 {
+            extra(w, ctx)?;
+            w.step_check()?;
+            hook(w, ctx)?;
+            continue;
+        }
         let op = match kind {
             0 => {
                 // conventional tick for every connection
